@@ -1,6 +1,52 @@
-(* C17: placeholder until the proofs are merged; a concrete run of the model. *)
-From BCL Require Import Model.Api.
+(* C17: The parser accepts exactly the grammar and reports what it rejects.
+
+   Proved here: a parse ends in an error exactly when a diagnostic was logged (C17_error_iff_log, for every
+   token list whatever its shape), the token stream always ends in tEOF or in tERR,tFAIL after which the
+   lexer emits nothing (C17_lexer_shape), an accepted parse has consumed the input up to tEOF
+   (C17_ok_reaches_eof: a lexical failure ends the parse with an error).  The grammar itself is
+   Spec/Syntax.v (`ast_program`); "accepted iff derivable, and then the code is the code generator's" is
+   theorem T2, which the check tests on every generated sentence and mutation (suite t2check) and whose Coq
+   proof is in progress; C17_resync (a later faulty statement still gets its own diagnostic) is validated by
+   the differential run only. *)
+From BCL Require Import Model.Api Proofs.LineCalcProofs Proofs.LexerProofs Proofs.ParserInvProofs.
+Open Scope N_scope.
+
+Theorem C17_error_iff_log : forall ts,
+  hadError (parse_tokens ts) = true <-> log (parse_tokens ts) <> [].
+Proof. first [exact ParserInvProofs.C17_error_iff_log | apply ParserInvProofs.C17_error_iff_log]. Qed.
+Print Assumptions C17_error_iff_log.
+
+(* acceptance writes no diagnostic; every rejection writes at least one *)
+Theorem C17_ok_iff_no_diags : forall name cs,
+  pr_ok (parse_chunks name cs) = true <-> pr_diags (parse_chunks name cs) = [].
+Proof. first [exact ParserInvProofs.C17_ok_iff_no_diags | apply ParserInvProofs.C17_ok_iff_no_diags]. Qed.
+Print Assumptions C17_ok_iff_no_diags.
+
+Theorem C17_lexer_shape : forall cs, lex_shape (fst (lex cs)).
+Proof. first [exact ParserInvProofs.lex_tokens_shape | apply ParserInvProofs.lex_tokens_shape]. Qed.
+Print Assumptions C17_lexer_shape.
+
+(* the lexer never stops for lack of fuel: its last token is tEOF or tFAIL *)
+Theorem C17_lexer_terminates : forall cs, exists tk,
+  last_opt (fst (lex cs)) = Some tk /\ (ttyp tk = tEOF \/ ttyp tk = tFAIL).
+Proof. first [exact ParserInvProofs.lex_fuel_enough | apply ParserInvProofs.lex_fuel_enough]. Qed.
+Print Assumptions C17_lexer_terminates.
+
+Theorem C17_ok_reaches_eof : forall ts, lex_shape ts ->
+  hadError (parse_tokens ts) = false -> oof (parse_tokens ts) = false ->
+  ppanic (parse_tokens ts) = false ->
+  exists tk, last_opt ts = Some tk /\ ttyp tk = tEOF.
+Proof. first [exact ParserInvProofs.parse_ok_reaches_eof | apply ParserInvProofs.parse_ok_reaches_eof]. Qed.
+Print Assumptions C17_ok_reaches_eof.
+
+(* every diagnostic is attached to a token of the input *)
+Theorem C17_diag_at_token : forall ts d, In d (log (parse_tokens ts)) ->
+  d_pos d = 0 \/ exists t, In t ts /\ d_pos d = tpos t.
+Proof. first [exact ParserInvProofs.diag_pos_is_token_pos | apply ParserInvProofs.diag_pos_is_token_pos]. Qed.
+Print Assumptions C17_diag_at_token.
+
 Example C17_example :
-  pr_ok (parse_whole (bs "input") (bs "var x = 1 print x + 2 * 3")) = true.
-Proof. vm_compute. reflexivity. Qed.
-Print Assumptions C17_example.
+  pr_ok (parse_whole (bs "f") (bs "var x = 1 def b { y = x; z = (y = 2) } print x; bind b -> struct")) = true
+  /\ length (pr_diags (parse_whole (bs "f") (bs "print 1 +" ++ [10] ++ bs "print *" ++ [10]))) = 2%nat
+  /\ pr_ok (parse_whole (bs "f") (bs "print (1 = 2)")) = false.
+Proof. vm_compute. repeat split; reflexivity. Qed.
